@@ -157,7 +157,7 @@ def generate(rng, tier):
 # ------------------------------------------------------------------ package worlds
 
 PKG_FORMS = ["A", "B", "C", "D", "E", "F", "G", "R", "L"]
-PKG_FILES = ["pkg.__init__", "pkg.sub", "pkg.other", "pkg.inner.__init__", "pkg.inner.deep", "cli"]
+PKG_FILES = ["pkg.__init__", "pkg.sub", "pkg.other", "pkg.inner.__init__", "pkg.inner.deep", "pkg.twin", "cli"]
 
 
 def gen_pkg(rng):
@@ -189,7 +189,10 @@ def pkg_texts(P, forms, stamps):
                     f'(defreader rs \'"sub:rs")\n(setv stamp {stamps["pkg.sub"]})\n')
     t["pkg.other"] = ('(require .sub [s1 :as rel1])\n(require .sub :as S)\n(defmacro o1 [] "other:o1")\n'
                       f'(setv oval [(rel1) (S.s-two 3) (o1)])\n(setv stamp {stamps["pkg.other"]})\n')
-    t["pkg.inner.__init__"] = f"(setv stamp {stamps['pkg.inner.__init__']})\n"
+    # a relative require inside a package __init__, with a same-named module one level up AND one level down: whichever
+    # of the two it means, it must mean the same when the package is loaded from bytecode
+    t["pkg.inner.__init__"] = f"(require .twin [tw :as itw])\n(require .twin :as TW)\n(setv twv [(itw) (TW.tw)])\n(setv stamp {stamps['pkg.inner.__init__']})\n"
+    t["pkg.twin"] = f'(defmacro tw [] "outer-twin")\n(defmacro only-outer [] 1)\n(setv stamp {stamps["pkg.twin"]})\n'
     t["pkg.inner.deep"] = (f'(require {P}pkg.sub [s1 :as up1 s-two])\n(require {P}pkg.sub :readers [rs])\n'
                            f'(setv dval [(up1) (s-two 9) #rs])\n(setv stamp {stamps["pkg.inner.deep"]})\n')
     c, vals, keys = [], [], set()
@@ -267,6 +270,8 @@ def execute_pkg(desc):
         texts, vals, keys = pkg_texts(P, forms, stamps)
         for f in PKG_FILES:
             W.write(P + f, texts[f])
+        W.write(P + "pkg.inner.twin", '(defmacro tw [] "inner-twin")\n(defmacro only-inner [] 2)\n')
+        twin_baseline = None
         pyc_valid = {f: False for f in PKG_FILES}
         want_v = [pkg_value(x) for x in vals]
         want_exp = {}
@@ -343,6 +348,19 @@ def execute_pkg(desc):
                         viols.append({"clause": "required_macro_unavailable", "sig": "pkg:" + path,
                                       "detail": {"op": oi, "call": call, "got": repr(v)[:200], "expected": repr(want_exp[k])}})
                         break
+                inner_mod = sys.modules.get(P + "pkg.inner")
+                twin_obs = [getattr(inner_mod, "twv", "<missing>"), sorted(getattr(inner_mod, "_hy_macros", {}).keys())]
+                for call_ in ("(itw)", "(TW.tw)"):
+                    try:
+                        twin_obs.append(hy.eval(hy.read(call_), module=inner_mod))
+                    except BaseException as e:
+                        twin_obs.append("<%s>" % type(e).__name__)
+                init_path = "source" if W.files[P + "pkg.inner.__init__"] in compiled_paths else "cache"
+                if twin_baseline is None:
+                    twin_baseline = twin_obs
+                elif twin_obs != twin_baseline:
+                    viols.append({"clause": "module_values", "sig": "pkg-init-relative-require:" + init_path,
+                                  "detail": {"op": oi, "path": init_path, "got": repr(twin_obs)[:200], "first_import_gave": repr(twin_baseline)[:200]}})
                 want_r = ["rs"] if "R" in forms else []
                 have_r = sorted(getattr(res, "_hy_reader_macros", {}).keys())
                 if have_r != want_r:
